@@ -6,7 +6,7 @@
    (which pending call completes next, whether the dispatcher finds the API idle).  The model is that of the
    Fetcher with the proposed fixes /verif/fixes/C11-*.diff. *)
 From Coq Require Import List NArith Bool.
-From MW Require Import C11.Model C11.Proofs C11.Proofs2 C11.Proofs3.
+From MW Require Import C11.Model C11.Proofs C11.Proofs2 C11.Proofs3 C11.ProofsFuel.
 Import ListNotations.
 
 (* Termination with an explicit measure: every scheduling decision on a non-final state strictly decreases
@@ -88,3 +88,92 @@ Example C11_example :
   (forall src, ~ In (IArt 4 None src)%N (stored s)) /\ (forall src, ~ In (IArt 9 None src)%N (stored s)).
 Proof. exact example_run. Qed.
 Print Assumptions C11_example.
+
+(* ------------------------------------------------------------------ the fuels of the model are sufficient
+   (`resolve` and `rendered` are shared by the specification and the Fetcher model; the theorems below show
+   that their recursion bounds never cut a result short and give both a fuel-free reading) *)
+
+(* every fuel of at least |W|+1 gives the result of `resolve` (whose own fuel is |W|+1) *)
+Theorem C11_resolve_fuel_sufficient : forall W t f, S (length W) <= f -> resolve_aux W f t [t] = resolve W t.
+Proof. exact resolve_fuel_sufficient. Qed.
+Print Assumptions C11_resolve_fuel_sufficient.
+
+(* `resolve_aux_m` is `resolve_aux` with the out-of-fuel branch made visible (None): it agrees with
+   resolve_aux whenever it answers ... *)
+Theorem C11_resolve_marker_agrees : forall W f t seen x,
+  resolve_aux_m W f t seen = Some x -> resolve_aux W f t seen = x.
+Proof. exact resolve_aux_m_agrees. Qed.
+Print Assumptions C11_resolve_marker_agrees.
+
+(* ... and with the fuel of `resolve` it always answers: the out-of-fuel branch is never taken. *)
+Theorem C11_resolve_never_out_of_fuel : forall W t, resolve_aux_m W (S (length W)) t [t] <> None.
+Proof. exact resolve_never_out_of_fuel. Qed.
+Print Assumptions C11_resolve_never_out_of_fuel.
+
+(* fuel-free: resolve answers (h, Some f) exactly when h is the chain of current-revision redirect hops
+   from t to f and f is a missing page or a page whose current revision is no redirect ... *)
+Theorem C11_resolve_is_redirect_chain : forall W t h f,
+  resolve W t = (h, Some f) <-> redir_path W t h f /\ terminal W f.
+Proof. exact resolve_some_iff. Qed.
+Print Assumptions C11_resolve_is_redirect_chain.
+
+(* ... and yields no page exactly when the chain from t runs into a circle; *)
+Theorem C11_resolve_none_is_circle : forall W t,
+  snd (resolve W t) = None <-> exists h1 b c, redir_path W t h1 b /\ c <> [] /\ redir_path W b c b.
+Proof. exact resolve_none_iff. Qed.
+Print Assumptions C11_resolve_none_is_circle.
+
+(* then all hops are reported up to and including the one that closes the circle. *)
+Theorem C11_resolve_circle_hops : forall W t h, resolve W t = (h, None) ->
+  exists h0 a b, h = h0 ++ [(a, b)] /\ redir_path W t h b /\ In b (t :: map snd h0).
+Proof. exact resolve_none_shape. Qed.
+Print Assumptions C11_resolve_circle_hops.
+
+(* a successful chain visits no title twice *)
+Theorem C11_resolve_chain_nodup : forall W t h f, resolve W t = (h, Some f) -> NoDup (t :: map snd h).
+Proof. exact resolve_path_nodup. Qed.
+Print Assumptions C11_resolve_chain_nodup.
+
+(* the served revision does not depend on the fuel, and is the current, non-redirect revision at the end of the chain *)
+Theorem C11_final_rev_fuel_irrelevant : forall W fuel t,
+  S (length W) <= fuel -> final_rev_fuel W fuel t = final_rev W t.
+Proof. exact final_rev_fuel_irrelevant. Qed.
+Print Assumptions C11_final_rev_fuel_irrelevant.
+
+Theorem C11_final_rev_is_chain_end : forall W t r,
+  final_rev W t = Some r <-> exists h f, redir_path W t h f /\ cur_of W f = Some r /\ r_redirect r = None.
+Proof. exact final_rev_iff. Qed.
+Print Assumptions C11_final_rev_is_chain_end.
+
+(* template graphs may be circular: every fuel of at least |W| yields the same SET of images as `rendered`
+   (whose own fuel is |W|); more fuel only repeats images *)
+Theorem C11_rendered_fuel_sufficient : forall W r f i,
+  length W <= f -> (In i (imgs_of W f r) <-> In i (rendered W r)).
+Proof. exact imgs_fuel_sufficient. Qed.
+Print Assumptions C11_rendered_fuel_sufficient.
+
+(* fuel-free: the rendered images are those of the revisions reachable through current template revisions *)
+Theorem C11_rendered_is_reachability : forall W r i,
+  In i (rendered W r) <-> exists r', treach W r r' /\ In i (r_imgs r').
+Proof. exact rendered_is_reachability. Qed.
+Print Assumptions C11_rendered_is_reachability.
+
+(* the image answer for a list of titles, without any fuel *)
+Theorem C11_used_titles_imgs_fuel_free : forall W ts i,
+  In i (used_titles_imgs W ts) <->
+  exists t h f r r', In t ts /\ redir_path W t h f /\ cur_of W f = Some r /\ r_redirect r = None /\
+                     treach W r r' /\ In i (r_imgs r').
+Proof. exact used_titles_imgs_iff. Qed.
+Print Assumptions C11_used_titles_imgs_fuel_free.
+
+(* non-vacuity: a redirect chain 2 -> 3 -> 1, a circle 4 -> 8 -> 4, a missing title, a fuel that IS too small,
+   templates 5 <-> 6 that include each other *)
+Example C11_fuel_example :
+  resolve fx_W 2%N = ([(2, 3); (3, 1)]%N, Some 1%N) /\
+  resolve fx_W 4%N = ([(4, 8); (8, 4)]%N, None) /\
+  resolve fx_W 99%N = ([], Some 99%N) /\
+  resolve_aux fx_W 2 2%N [2%N] <> resolve fx_W 2%N /\
+  rendered fx_W (mkRev 10 None [5] [7])%N = [7; 9; 11; 9; 11; 9; 11; 9]%N /\
+  imgs_of fx_W 1 (mkRev 10 None [5] [7])%N = [7; 9]%N.
+Proof. exact fuel_example. Qed.
+Print Assumptions C11_fuel_example.
